@@ -44,6 +44,7 @@ class Event:
     # raise
     exc: str = ""
     text: str = ""
+    via: str = ""  # name of the bound callable parameter the call goes through
 
 
 @dataclass
@@ -93,6 +94,11 @@ class FunctionFlow:
         self.ctx: Ctx = R.ctx(call)
         self.nodes: list[Node] = []
         self._loop_stack: list[tuple[int, int]] = []  # (continue target, break target)
+        self._roots_cache: dict[int, frozenset] = {}
+        self._roots_busy: set[int] = set()
+        self._caught_cache: dict[tuple[int, str], tuple] = {}
+        self.try_info: dict[int, list] = {}
+        self._prev_siblings: list = []
         self._try_stack: list[tuple[int, tuple]] = []
         self.entry = self._new("entry", None)
         self.exit = self._new("exit", None)
@@ -117,7 +123,8 @@ class FunctionFlow:
 
     def _body(self, body: list[ast.stmt], preds: set[int]) -> set[int]:
         cur = set(preds)
-        for st in body:
+        for i, st in enumerate(body):
+            self._prev_siblings = body[:i]
             cur = self._stmt(st, cur)
         return cur
 
@@ -170,13 +177,15 @@ class FunctionFlow:
             n.events = ev
             return self._body(st.body, {n.id})
         if isinstance(st, ast.Try) or st.__class__.__name__ == "TryStar":
+            prev = list(getattr(self, "_prev_siblings", []))
             head = self._new("join", st, label="try")
             self._link(preds, head)
-            names = []
+            infos = []
             for h in st.handlers:
-                names.append(tuple(self._handler_names(h)))
+                infos.append((tuple(self._handler_names(h)), self._bare_reraise(h), frozenset(self._restores(h, prev))))
+            self.try_info[head.id] = infos
             first_body_node = len(self.nodes)
-            self._try_stack.append((head.id, tuple(x for hs in names for x in hs)))
+            self._try_stack.append((head.id, tuple(x for names, _r, _s in infos for x in names)))
             body_end = self._body(st.body, {head.id})
             self._try_stack.pop()
             last_body_node = len(self.nodes)
@@ -203,7 +212,10 @@ class FunctionFlow:
             n = self._new("stmt", st)
             self._link(preds, n)
             ev = self._events_expr(st.exc) if st.exc is not None else []
-            ev.append(Event("raise", st, exc=self._raised_class(st), text=norm(st)))
+            if not (st.exc is None and self._enclosing_handler(st) is not None):
+                # (a bare re-raise is modelled in caught(): the exception of
+                # the try body keeps propagating)
+                ev.append(Event("raise", st, exc=self._raised_class(st), text=norm(st)))
             n.events = ev
             self._edge(n.id, self.raise_exit.id)
             return set()
@@ -450,7 +462,10 @@ class FunctionFlow:
             ev.append(Event("reflective", n, in_loop=loop, status=status, text=norm(n)))
             return
         if cs:
-            ev.append(Event("call", n, in_loop=loop, callees=cs, status="ok", text=norm(n)))
+            via = ""
+            if isinstance(n.func, ast.Name) and ctx.call.bound(n.func.id) is not None:
+                via = n.func.id
+            ev.append(Event("call", n, in_loop=loop, callees=cs, status="ok", text=norm(n), via=via))
         elif status == "unresolved":
             ev.append(Event("unresolved", n, in_loop=loop, status=status, text=norm(n.func)))
 
@@ -509,8 +524,7 @@ class FunctionFlow:
             return self.place(e.value, _d + 1)
         if isinstance(e, ast.Name):
             if ctx.is_param(e.id):
-                cs = R.classes_of(R.type_of(e, ctx))
-                return [(c.qualname, "<obj>") for c in cs] or [("?param:" + e.id, "<obj>")]
+                return [("?param:" + e.id, "<obj>")]
             out = []
             for kind, v in ctx.local_defs().get(e.id, []):
                 if kind == "assign" and isinstance(v, (ast.Attribute, ast.Subscript, ast.Name, ast.Call, ast.IfExp)):
@@ -543,7 +557,23 @@ class FunctionFlow:
 
         atoms: 'self', 'param:<n>', 'fresh', 'global', 'unk', 'outer:<...>'
         """
-        if _d > 10:
+        k = id(e)
+        hit = self._roots_cache.get(k)
+        if hit is not None:
+            return hit
+        if k in self._roots_busy:
+            return frozenset()
+        self._roots_busy.add(k)
+        try:
+            r = self._roots(e, _d)
+        finally:
+            self._roots_busy.discard(k)
+        if not self._roots_busy:
+            self._roots_cache[k] = r
+        return r
+
+    def _roots(self, e: ast.AST, _d: int = 0) -> frozenset:
+        if _d > 40:
             return frozenset({"unk"})
         R, ctx = self.R, self.ctx
         if isinstance(e, ast.Constant):
@@ -610,8 +640,39 @@ class FunctionFlow:
             rt = R.type_of(e, ctx)
             if rt and all(a[0] in ("num", "str", "bool", "none") for a in rt):
                 return frozenset({"fresh"})
-            if ft and all(a[0] == "ext" for a in ft):
+            if ft and all(a[0] == "ext" for a in ft) and not any(
+                a[1].split(".")[-1] in ("chain", "cast", "reversed", "islice", "cycle", "tee", "itemgetter", "attrgetter") for a in ft
+            ):
                 return frozenset({"fresh"})
+            cs, _status = R.callees(e, ctx)
+            if cs:
+                out = set()
+                for cal, mode in cs:
+                    if mode == "ctor":
+                        out.add("fresh")
+                        continue
+                    bind = bind_args(e, cal.fn, mode)
+                    for r in return_roots(R, cal):
+                        if r in ("fresh", "global", "unk"):
+                            out.add(r)
+                            continue
+                        if r.startswith("outer:"):
+                            out.add(r[len("outer:"):] if cal.fn.parent is self.fn else "unk")
+                            continue
+                        pn = self_param(cal.fn) if r == "self" else r[len("param:"):]
+                        x = bind.get(pn) if pn else None
+                        if isinstance(x, ast.AST):
+                            if isinstance(x, ast.Call) and (dotted(x.func) or "") == "super":
+                                out.add("self")
+                            else:
+                                out |= self.roots(x, _d + 1)
+                        elif x == "<fresh>":
+                            out.add("fresh")
+                        elif pn and pn in cal.fn.param_defaults():
+                            out.add("global")
+                        else:
+                            out.add("unk")
+                return frozenset(out) or frozenset({"fresh"})
             out = set()
             if isinstance(e.func, ast.Attribute):
                 out |= self.roots(e.func.value, _d + 1)
@@ -657,13 +718,60 @@ class FunctionFlow:
                     changed = True
         return dom
 
-    def caught(self, node: Node, exc: str) -> bool:
-        """Is an exception of class ``exc`` escaping this node caught inside the function?"""
-        for _tid, handlers in node.tries:
-            for h in handlers:
-                if exc_covers(self.P, h, exc):
-                    return True
+    def _bare_reraise(self, h: ast.ExceptHandler) -> bool:
+        """Handler ends by re-raising the exception it caught (bare ``raise``)."""
+        for n in ast.walk(h):
+            if isinstance(n, ast.Raise) and n.exc is None:
+                return True
         return False
+
+    def _restores(self, h: ast.ExceptHandler, prev: list[ast.stmt]) -> set[tuple[str, str, str]]:
+        """Fields restored by a handler: ``X.f = saved`` where ``saved = X.f`` is a
+        statement preceding the ``try`` in the same block and ``saved`` has no other definition.
+        Returned as (owner, field, receiver text)."""
+        out: set[tuple[str, str, str]] = set()
+        last = h.body[-1] if h.body else None
+        if not (isinstance(last, ast.Raise) and last.exc is None):
+            return out
+        saved: dict[str, ast.Attribute] = {}
+        for st in prev:
+            if isinstance(st, ast.Assign) and len(st.targets) == 1 and isinstance(st.targets[0], ast.Name) and isinstance(st.value, ast.Attribute):
+                saved[st.targets[0].id] = st.value
+        for st in h.body:
+            if isinstance(st, ast.Assign) and len(st.targets) == 1 and isinstance(st.targets[0], ast.Attribute) and isinstance(st.value, ast.Name):
+                t = st.targets[0]
+                v = st.value.id
+                if v in saved and norm(saved[v]) == norm(t) and len(self.ctx.local_defs().get(v, [])) == 1:
+                    for owner, fld in self.field_of(t):
+                        out.add((owner, fld, norm(t.value)))
+        return out
+
+    def caught(self, node: Node, exc: str) -> bool:
+        """Is an exception of class ``exc`` escaping this node swallowed/converted inside the function?"""
+        return self.escape(node, exc)[0] is False
+
+    def escape(self, node: Node, exc: str) -> tuple[bool, frozenset]:
+        """(escapes?, fields restored by re-raising handlers on the way out)."""
+        k = (node.id, exc)
+        hit = self._caught_cache.get(k)
+        if hit is None:
+            restored: set = set()
+            escapes = True
+            for tid, _names in reversed(node.tries):
+                stop = False
+                for names, reraise, restores in self.try_info.get(tid, []):
+                    if any(exc_covers(self.P, h, exc) for h in names):
+                        if reraise:
+                            restored |= restores
+                        else:
+                            escapes = False
+                        stop = not reraise
+                        break
+                if stop:
+                    break
+            hit = (escapes, frozenset(restored))
+            self._caught_cache[k] = hit
+        return hit
 
     def all_events(self) -> Iterable[tuple[Node, int, Event]]:
         for n in self.nodes:
@@ -672,6 +780,73 @@ class FunctionFlow:
 
 
 _FLOW_CACHE: dict[tuple[int, str], FunctionFlow] = {}
+_RET_CACHE: dict[tuple[int, str], frozenset] = {}
+_RET_BUSY: set = set()
+
+
+def self_param(f: FunctionInfo) -> Optional[str]:
+    a = f.node.args
+    pos = a.posonlyargs + a.args
+    if not pos:
+        return None
+    if f.cls is not None and f.parent is None and f.kind != "staticmethod":
+        return pos[0].arg
+    if pos[0].arg == "self":
+        return "self"
+    return None
+
+
+def bind_args(n: ast.Call, callee: FunctionInfo, mode: str) -> dict:
+    """param name -> argument expression of a Call node ('<fresh>' for a constructed self)."""
+    a = callee.node.args
+    params = [x.arg for x in a.posonlyargs + a.args]
+    full: list = []
+    if mode in ("bound", "ctor"):
+        full.append("<fresh>" if mode == "ctor" else (n.func.value if isinstance(n.func, ast.Attribute) else None))
+    full += list(n.args)
+    out: dict = {}
+    for i, pn in enumerate(params):
+        if i < len(full):
+            if any(isinstance(x, ast.Starred) for x in full[: i + 1]):
+                break
+            out[pn] = full[i]
+    for kw in n.keywords:
+        if kw.arg is not None:
+            out[kw.arg] = kw.value
+    return out
+
+
+def return_roots(R: Resolver, c: Callable_) -> frozenset:
+    """Roots (in the callee's own frame) of everything the callable may return."""
+    k = (id(R), c.key)
+    if k in _RET_CACHE:
+        return _RET_CACHE[k]
+    if k in _RET_BUSY:
+        return frozenset()
+    _RET_BUSY.add(k)
+    try:
+        fl = flow_of(R, c)
+        out: set = set()
+        if c.fn.kind in ("property", "cached_property") or True:
+            for n in ast.walk(c.fn.node):
+                if isinstance(n, (ast.FunctionDef, ast.AsyncFunctionDef, ast.Lambda)) and n is not c.fn.node:
+                    continue
+            stack = list(c.fn.node.body)
+            while stack:
+                n = stack.pop()
+                if isinstance(n, (ast.FunctionDef, ast.AsyncFunctionDef, ast.ClassDef, ast.Lambda)):
+                    continue
+                if isinstance(n, ast.Return) and n.value is not None:
+                    out |= fl.roots(n.value)
+                elif isinstance(n, (ast.Yield, ast.YieldFrom)) and n.value is not None:
+                    out |= fl.roots(n.value)
+                stack.extend(ast.iter_child_nodes(n))
+        res = frozenset(out) or frozenset({"fresh"})
+    finally:
+        _RET_BUSY.discard(k)
+    if not _RET_BUSY:
+        _RET_CACHE[k] = res
+    return res
 
 
 def flow_of(R: Resolver, c: Callable_ | FunctionInfo) -> FunctionFlow:
